@@ -10,7 +10,7 @@ for s in $(seq $A $B); do
     echo "seed $s $p A rc=$rc $(echo "$out" | tail -1 | cut -c1-150)"
     [ $rc != 0 ] && echo "$out" | grep "violation candidate\|VIOLATION\|minimised\|HARNESS" | head -8
   done
-  for p in C12 C13 C14; do
+  for p in C11 C12 C13 C14; do
     out=$(build/simcheck-T --property $p --tier quick --seed $s --runs-scale $SCALE --budget 200 --verif-dir "$PWD" --build-dir "$PWD/build" 2>&1); rc=$?
     echo "seed $s $p T rc=$rc $(echo "$out" | tail -1 | cut -c1-150)"
     [ $rc != 0 ] && echo "$out" | grep "violation candidate\|VIOLATION\|minimised\|HARNESS" | head -8
